@@ -162,6 +162,48 @@ MaybeTriggerDecryption(st, env, s) ==
                             !.cur[e] = [row |-> TRUE, slot |-> s, ptr |-> g.p, ids |-> ids, signed |-> FALSE]]
     IN [st |-> st2, out |-> "emit", trig |-> [block |-> env.block + 1, ids |-> ids]]
 
+(* The same call when ONE statement of the slot path fails with a database error (one-shot fault
+   class f = the statement; every statement is its own autocommit transaction, so what was written
+   before stays).  A fault on a statement the call does not reach has no effect.  Statements in
+   call order: synced    GetTransactionSubmittedEventsSyncedUntil
+               keyperset GetKeyperSet
+               registered IsValidatorRegistered (also issued for an unregistered proposer)
+               incr      IncrementTxPointerAge
+               eon       GetEonForBlockNumber            (the age is already incremented)
+               getptr    GetTxPointer
+               initptr   SetTxPointer (no row yet)
+               count     GetTransactionSubmittedEventCount (outdated pointer only)
+               events    GetTransactionSubmittedEvents   (a missing row is already initialised)
+               setcur    SetCurrentDecryptionTrigger
+   latestTriggeredSlot is set right after the guard, so the failed slot is not tried again. *)
+FaultClasses == {"synced", "keyperset", "registered", "incr", "eon", "getptr", "initptr", "count", "events", "setcur"}
+
+MaybeTriggerDecryptionF(st, env, s, f) ==
+    LET codeLatest == IF st.fresh THEN NoSlot ELSE st.latest
+        Err(x) == [st |-> x, out |-> "err", trig |-> NoTrig]
+    IN
+    IF codeLatest # NoSlot /\ s <= codeLatest THEN [st |-> st, out |-> "nil", trig |-> NoTrig]
+    ELSE
+    LET st1 == [st EXCEPT !.latest = s, !.fresh = FALSE] IN
+    IF f = "synced" THEN Err(st1)
+    ELSE IF env.synced >= s THEN Err(st1)
+    ELSE IF f \in {"keyperset", "registered"} THEN Err(st1)
+    ELSE IF s \in Unreg THEN [st |-> st1, out |-> "nil", trig |-> NoTrig]
+    ELSE IF f = "incr" THEN Err(st1)
+    ELSE
+    LET e    == env.active
+        row1 == IncrementTxPointerAge(st1.ptr[e])
+        st1a == [st1 EXCEPT !.ptr[e] = row1]
+        g    == GetTxPointer(row1, env.q[e])
+        st1b == [st1 EXCEPT !.ptr[e] = g.row]
+        outdated == row1.row /\ (row1.age = Null \/ row1.age > MaxAge)
+    IN
+    IF f \in {"eon", "getptr"} THEN Err(st1a)
+    ELSE IF f = "initptr" /\ ~row1.row THEN Err(st1a)
+    ELSE IF f = "count" /\ outdated THEN Err(st1a)
+    ELSE IF f \in {"events", "setcur"} THEN Err(st1b)
+    ELSE MaybeTriggerDecryption(st, env, s)               \* the faulty statement is not reached
+
 (* handlers.go DecryptionKeysHandler.HandleMessage for a validated keys message of eon e with
    pointer p and n keys: SetTxPointer(e, age 0, p+n-1); the signatures it carries are inserted
    (match: the message is for exactly this keyper's current trigger) *)
@@ -203,7 +245,9 @@ EnvSwitchEon(env)      == [env EXCEPT !.active = @ + 1, !.block = @ + 1]
 
 ----------------------------------------------------------------------------
 (* operations (shared by the model checking module and the trace module):
-     slot    K, s        slot tick s (maybeTriggerDecryption)
+     slot    K, s        slot tick s (maybeTriggerDecryption); every slot is offered twice (new
+                         block, slot ticker): a tick for the slot just handled is allowed
+     slotf   K, s, g     the same with a one-shot database error on statement class g
      in      K, e, p, n  a valid DecryptionKeys message of eon e, pointer p, n keys is received
                          (m: it is the message for the keyper's own current trigger, p and n are
                          taken from it)
@@ -229,6 +273,9 @@ Entry(q, g) == [r |-> Ranks[Len(q) + 1], g |-> g]
 KeyperStep(st, en, o) ==
     CASE o.op = "slot" ->
            LET x == MaybeTriggerDecryption(st, en, o.s) IN
+           [st |-> x.st, r |-> [out |-> x.out, trig |-> x.trig, msg |-> NoMsg]]
+      [] o.op = "slotf" ->                                  \* slot tick with the one-shot fault o.g
+           LET x == MaybeTriggerDecryptionF(st, en, o.s, o.g) IN
            [st |-> x.st, r |-> [out |-> x.out, trig |-> x.trig, msg |-> NoMsg]]
       [] o.op = "in" ->
            LET c == st.cur[o.e]
